@@ -10,6 +10,7 @@ rsync -a --exclude .git --exclude www --exclude imgs --exclude bin /repo/src/ "$
 perl -0pi -e "$EXPR" "$S/$FILE"
 if diff -q "/repo/$FILE" "$S/$FILE" >/dev/null; then echo "MUTATION DID NOT APPLY"; exit 3; fi
 (cd "$S" && GOFLAGS=-mod=mod GOPROXY=off go build ./... 2>&1 | head -5)
+cp /verif/known_findings.jsonl /tmp/mut/verif/ 2>/dev/null
 for P in $(echo "$PROP" | tr ',' ' '); do
 PCVERIF_REPO="$S" /verif/bin/pcverif check "$P" --repo "$S" --verif /tmp/mut/verif 2>&1 | grep -E "violated|VIOLATION|BROKEN|obligations" | head -${MUT_LINES:-6}
 done
